@@ -18,6 +18,7 @@ def ta(x, a): return ('ta', x, a)
 def w(a, b, c, d): return ('w', a, b, c, d)
 def w4(a, b, c, d): return ('w4', a, b, c, d)
 def v4(a, b, c, d): return ('v4', a, b, c, d)
+def lt(x, a, y): return ('lt', x, a, y)
 def mvar(a): return ('mvar', a)
 def madd(x, y): return ('madd', x, y)
 def mmul(x, y): return ('mmul', x, y)
@@ -98,6 +99,12 @@ QUICK = [
       note='a grandparent inserted before its grandchild class becomes symmetric: the parent class inherits the symmetry and ITS users must be re-canonicalised too (re-insertion must find the node)'),
     T('B20', 'Lb', 2, [add(u(k(0, 1))), add(u(j(1, 0))), union(u(k(0, 1)), u(j(1, 0))), add(j(0, 1)), union(k(0, 1), j(0, 1)), add(u(k(1, 0))), readd(u(j(0, 1))), add(app(u(k(0, 1)), u(k(1, 0))))], distinct=[[0, 1]],
       note='u(k(x,y)) = u(j(y,x)), then k(x,y) = j(x,y): the two nodes of the parent class collide with exchanged slots - the class gains a symmetry by congruence within itself'),
+    T('TW5', 'Lf', 5, [add(w(0, 1, 2, 3)), add(w(1, 0, 3, 2)), union(w(0, 1, 2, 3), w(1, 0, 3, 2)), add(g(0, 1)), union(w(0, 1, 2, 3), g(0, 1)), add(g(1, 0)), add(g(0, 4)), add(w(0, 1, 4, 4))], distinct=[[0, 1, 2, 3, 4]], ordered=[[0, 1, 2, 3]],
+      note='one symmetry with two disjoint cycles (a b)(c d), then only the second cycle becomes redundant: the first cycle stays a symmetry and its slots stay [names assumed increasing]'),
+    T('B22', 'Lb', 4, [add(u(app(k(0, 1), k(2, 3)))), add(k(1, 0)), union(k(0, 1), k(1, 0)), add(u(app(k(1, 0), k(2, 3)))), add(u(app(k(0, 1), k(3, 2)))), add(u(app(k(2, 3), k(0, 1))))], distinct=[[0, 1, 2, 3]], ordered=[[0, 1, 2, 3]],
+      note='a symmetry learned below a node with TWO symmetric arguments: the parent gains two independent symmetries in one visit and ITS parent must be re-canonicalised for both [names assumed increasing]'),
+    T('B23', 'Lb', 3, [add(app(var(0), var(1))), add(lt(var(1), 2, app(var(2), var(1)))), add(lt(var(0), 2, app(var(2), var(0)))), add(lt(var(1), 0, app(var(0), var(1)))), add(lt(var(0), 2, app(var(2), var(1))))], distinct=[[0, 1, 2]],
+      note='a binder that follows a child with a free slot: the bound slot is numbered after the free one in the shape; a free name equal to any internal numbering must not be captured'),
     T('B21', 'Lb', 4, [add(t3(0, 1, 2)), add(u(t3(1, 2, 3))), union(t3(0, 1, 2), u(t3(1, 2, 3))), readd(t3(0, 1, 2)), add(t3(3, 3, 3))], distinct=[[0, 1, 2, 3]],
       note='q(x,y,z) = u(q(y,z,w)): a self-referential equation with shifted slots - every slot becomes redundant, one after the other, through the class own node (cascading shrink)'),
 ]
